@@ -20,7 +20,7 @@ PROP = dict(
         "Shangrla.C04.wrong_winner_empty_gap", "Shangrla.C04.raire_no_exception_gap", "Shangrla.C04.raire_terminates_gap",
         "Shangrla.C04.raire_correct_gap", "Shangrla.C04.noGap_is_default",
     ],
-    groups={"raire": (3000, 120000)},
+    groups={"raire": (3000, 120000), "simp": (3000, 40000)},
     design_ref="DESIGN.md section 5, C04; Appendix F",
     assumptions=[
         "the model's main loop is fuelled; raire_terminates proves that raireFuel(C, winner) iterations always suffice and "
